@@ -68,38 +68,53 @@ def socket_recv_model(I, args):
 # AssociationSocket.recv
 # ---------------------------------------------------------------------------------------------
 def _roles(fi):
-    """Structural roles of the loop variables (no names hard-coded): the while guard `count < want`
-    and the variable returned after the loop."""
+    """Structural roles (no names hard-coded): the accumulator is the variable returned after the loop; the counters are the
+    integer locals the loop body updates with `+=` / `-=` (e.g. a count of bytes read going up, or a number of bytes
+    still wanted going down); the number of bytes wanted is the function's second parameter."""
     loops = [n for n in ast.walk(fi.node) if isinstance(n, ast.While)]
     if len(loops) != 1:
         raise Unsupported("recv: expected exactly one while loop")
-    t = loops[0].test
-    if not (isinstance(t, ast.Compare) and len(t.ops) == 1 and isinstance(t.ops[0], (ast.Lt, ast.LtE, ast.NotEq, ast.Gt, ast.GtE))
-            and isinstance(t.left, ast.Name) and isinstance(t.comparators[0], ast.Name)):
-        raise Unsupported("recv: loop guard is not `count < want`")
-    count, want = t.left.id, t.comparators[0].id
-    if isinstance(t.ops[0], (ast.Gt, ast.GtE)):
-        count, want = want, count
     rets = [n for n in fi.node.body if isinstance(n, ast.Return)]
     if not rets or not isinstance(rets[-1].value, ast.Name):
         raise Unsupported("recv: no trailing `return <name>`")
-    return count, want, rets[-1].value.id
+    counters = []
+    for n in ast.walk(loops[0]):
+        if isinstance(n, ast.AugAssign) and isinstance(n.target, ast.Name) and isinstance(n.op, (ast.Add, ast.Sub)):
+            counters.append((n.target.id, 1 if isinstance(n.op, ast.Add) else -1))
+    params = [a.arg for a in fi.node.args.args]
+    if len(params) < 2:
+        raise Unsupported("recv: no byte-count parameter")
+    return counters, params[1], rets[-1].value.id
 
 
 class RecvLoop(LoopSpec):
-    def __init__(self, count, want, acc):
-        self.count, self.want, self.acc = count, want, acc
+    """invariant: the accumulator is stream[pos0 : pos0 + L], the cursor is at pos0 + L, 0 <= L <= wanted, and every counter c
+    that the body steps by +-len(chunk) satisfies c == c_at_entry +- L"""
+
+    def __init__(self, counters, want, acc):
+        self.counters, self.want, self.acc = counters, want, acc
+
+    def _L(self, I, fr):
+        return I._num(LB.of(I, fr.locals[self.acc]).sym_len(I), "int")
 
     def invariant(self, I, fr):
         g = I.ghost
-        c = I._num(fr.locals[self.count], "int")
+        L = self._L(I, fr)
         w = I._num(fr.locals[self.want], "int")
-        acc = fr.locals[self.acc]
-        return z3.And(c >= 0, c <= w, g["pos"] == g["pos0"] + c,
-                      LB.of(I, acc).is_slice_of(I, g["stream"], g["pos0"], g["pos0"] + c))
+        entry = g.setdefault("recv_entry", {})
+        cs = []
+        for name, sign in self.counters:
+            if name not in fr.locals:
+                continue
+            c = I._num(fr.locals[name], "int")
+            if name not in entry:
+                entry[name] = c                      # first evaluation on a path is the loop entry (L == 0 there)
+            cs.append(c == entry[name] + sign * L)
+        return z3.And(L >= 0, L <= w, g["pos"] == g["pos0"] + L,
+                      LB.of(I, fr.locals[self.acc]).is_slice_of(I, g["stream"], g["pos0"], g["pos0"] + L), *cs)
 
     def variant(self, I, fr):
-        return SV(I._num(fr.locals[self.want], "int") - I._num(fr.locals[self.count], "int"), "int")
+        return SV(I._num(fr.locals[self.want], "int") - self._L(I, fr), "int")
 
     def havoc(self, I, fr):
         g = I.ghost
@@ -107,8 +122,9 @@ class RecvLoop(LoopSpec):
         if not isinstance(acc, ByteArr):
             raise Unsupported("recv: accumulator is not a bytearray")
         # havoc through the invariant: the accumulator is SOME prefix slice of the stream, the cursor follows it
-        c = I._num(fr.locals[self.count], "int")
-        acc.v = LB([Slice(g["stream"], g["pos0"], g["pos0"] + c)])
+        L = I.fresh("int", "read_so_far")
+        I.assume(L.e >= 0)
+        acc.v = LB([Slice(g["stream"], g["pos0"], g["pos0"] + L.e)])
         p = I.fresh("int", "pos")
         I.assume(z3.And(p.e >= 0, p.e <= g["eof"]))
         g["pos"] = p.e
@@ -122,8 +138,8 @@ class RecvTask(Task):
         c = Config()
         c.ob_prefix = "C03/"
         fi = repo.func(RECV)
-        count, want, acc = _roles(fi)
-        c.loop_specs[(RECV, 0)] = RecvLoop(count, want, acc)
+        counters, want, acc = _roles(fi)
+        c.loop_specs[(RECV, 0)] = RecvLoop(counters, want, acc)
 
         def env_call(I, env, method, args, kw):
             if env.path == "self.socket" and method == "recv":
@@ -345,7 +361,12 @@ class DecodeTask(Task):
         me.attrs["assoc"] = Env("assoc")
         raised = {"v": False}
 
+        g_ = I.ghost
+
         def env_call(I_, env, method, args, kw):
+            if "queue" in env.path or env.path.endswith("_recv_pdu"):
+                g_["queue_used"] = f"{env.path}.{method}"
+                return None
             if env.path.startswith("new:") and method == "decode":
                 I.trace.append(Ev("pdu.decode", (env, args[0])))
                 if I.choose(2, "decode") == 1:
@@ -359,6 +380,15 @@ class DecodeTask(Task):
         names = PDU_KINDS
         if kind == "raise":
             I.ob(f"{P}/raises-only-when-decode-raises", raised["v"], detail=repr(val))
+            return
+        # what _read_pdu_data relies on (it uses this function by contract): the pair (decoded PDU, its event) is RETURNED and
+        # nothing is queued here - the caller queues the event only after the conversion check
+        shape = isinstance(val, tuple) and len(val) == 2
+        queued = [e for e in I.trace if e.name in ("event", "put_pdu") or (e.name.startswith("call:") and "queue" in e.name)]
+        queued += [e for e in I.trace if e.name == "envcall" and "queue" in str(e.args[:1])]
+        I.ob(f"{P}/returns-the-decoded-PDU-and-its-event-and-queues-nothing-itself", shape and not queued and not g_.get("queue_used"),
+             detail=f"returned {val!r}; queue operations: {queued or g_.get('queue_used')}")
+        if not shape:
             return
         pdu, ev = val
         evs = [e for e in I.trace if e.name == "evt"]
